@@ -40,11 +40,64 @@ type Trace struct {
 	E    int    `json:"e"`
 }
 
+// TNode is a syntax-tree node. On the wire a tree travels as a flat pre-order list with
+// depths: a right-recursive grammar on a long input nests thousands of levels, more than
+// encoding/json accepts.
 type TNode struct {
-	N string   `json:"n"`
-	B int      `json:"b"`
-	E int      `json:"e"`
-	K []*TNode `json:"k,omitempty"`
+	N string
+	B int
+	E int
+	K []*TNode
+}
+
+type flatNode struct {
+	N string `json:"n"`
+	B int    `json:"b"`
+	E int    `json:"e"`
+	D int    `json:"d"`
+}
+
+func (t *TNode) MarshalJSON() ([]byte, error) {
+	var flat []flatNode
+	type item struct {
+		n *TNode
+		d int
+	}
+	stack := []item{{t, 0}}
+	for len(stack) > 0 {
+		it := stack[len(stack)-1]
+		stack = stack[:len(stack)-1]
+		if it.n == nil {
+			continue
+		}
+		flat = append(flat, flatNode{it.n.N, it.n.B, it.n.E, it.d})
+		for i := len(it.n.K) - 1; i >= 0; i-- {
+			stack = append(stack, item{it.n.K[i], it.d + 1})
+		}
+	}
+	return json.Marshal(flat)
+}
+
+func (t *TNode) UnmarshalJSON(b []byte) error {
+	var flat []flatNode
+	if err := json.Unmarshal(b, &flat); err != nil {
+		return err
+	}
+	if len(flat) == 0 {
+		return nil
+	}
+	*t = TNode{N: flat[0].N, B: flat[0].B, E: flat[0].E}
+	path := []*TNode{t}
+	for _, f := range flat[1:] {
+		if f.D < 1 || f.D > len(path) {
+			return strconv.ErrSyntax
+		}
+		n := &TNode{N: f.N, B: f.B, E: f.E}
+		path = path[:f.D]
+		path[f.D-1].K = append(path[f.D-1].K, n)
+		path = append(path, n)
+	}
+	return nil
 }
 
 // Mode selects how the parser instance is set up.
